@@ -83,6 +83,8 @@ type FuncCtx struct {
 	pendingFacts []string
 	rootCon  *Contract
 	lastMapRange *ssa.Range
+	inlineDefs int
+	qdepth     int
 	addingAxioms bool
 	axiomDone map[int]bool
 	rootFn   *ssa.Function
@@ -155,7 +157,11 @@ func (c *FuncCtx) declare(hint, sort string) string {
 }
 
 func (c *FuncCtx) define(hint, sort, term string) string {
-	// avoid trivial aliases
+	if c.inlineDefs > 0 {
+		// evaluating code inside a quantified specification: the term may mention bound variables, so it cannot
+		// get a global name
+		return term
+	}
 	n := c.uniq(hint)
 	c.addDef(Def{Sym: n, Text: fmt.Sprintf("(define-fun %s () %s %s)", n, sort, term)})
 	return n
